@@ -435,7 +435,8 @@ CHECKS["C18"] = {
     "required_cells": ["pattern:all-single", "pattern:mixed", "transition:becomes-dynamic", "transition:gains-bit-fields",
                        "transition:alignment-grows", "self-reference", "instances-exist-before-extension",
                        "batch-left-by-exception", "discard-fields-sequence", "array-of-intermediate-state", "refused-extension-in-between",
-                       "container-declared-before-member-extension"],
+                       "container-declared-before-member-extension",
+                       "explicit-offset-after-dynamic-field", "straddling-bit-field-in-a-later-commit", "union-written-before-extension", "self-referential-array-member"],
     "assumptions": ASSUME_COMMON,
 }
 
